@@ -324,13 +324,20 @@ def bounded(t, fx, depth=0):
     return False
 
 
-def closure_compares_word_bits(node, fx):
+def closure_compares_word_bits(node, fx, strict=False):
+    """A closure under `node` compares its argument with the word size (`x < W` / `x <= W`). With strict=True only the strict
+    form counts: an OFFSET of exactly W starts outside the word."""
     for n, ps in F.walk(node):
         if n.get("k") == "Closure":
             for m, _ in F.walk(n["body"]):
-                if m.get("k") == "Binary" and m["op"] in ("Lt", "Le"):
-                    if mentions_word_bits(T.term(m, T.Env()), fx):
-                        return True
+                if m.get("k") == "Binary" and m["op"] in ("Lt", "Le", "Gt", "Ge"):
+                    t = T.term(m, T.Env())
+                    if mentions_word_bits(t, fx):
+                        if not strict:
+                            return True
+                        w_right = mentions_word_bits(t[3], fx)
+                        if (m["op"] == "Lt" and w_right) or (m["op"] == "Gt" and not w_right):
+                            return True
     return False
 
 
@@ -392,7 +399,7 @@ def check_r122(fx, rep):
                     # find the let that defined this local and look into its closure
                     res = False
                     for m, mps in F.walk(root):
-                        if m.get("s") == "Let" and "init" in m and closure_compares_word_bits(m["init"], fx):
+                        if m.get("s") == "Let" and "init" in m and closure_compares_word_bits(m["init"], fx, strict=(f == "offset")):
                             bound_names = {x[0] for x in F.pat_bindings(m["pat"]).values()}
                             used = {s[2] for s in T.subterms(T.term(fields[f], T.Env(), mutated)) if s[0] == "local"}
                             if bound_names & used:
@@ -407,6 +414,9 @@ def check_r122(fx, rep):
 
                     for lhs, rhs, strict in T.upper_bounds(ps, node, env, mutated):
                         if strip_ref(lhs) == strip_ref(t) and (mentions_word_bits(rhs, fx) or bounded(rhs, fx) is True):
+                            # an offset equal to the word size starts outside the word: the comparison must be strict
+                            if f == "offset" and mentions_word_bits(rhs, fx) and not strict:
+                                continue
                             res = True
                 if res and f == "size" and "offset" in fields:
                     # `size.min(WORD_SIZE_BITS - X)`: X must be the very offset stored next to it
